@@ -90,7 +90,7 @@ REFUSED = {
     "startswith of a tuple": "def f(d, x, o):\n    if x.startswith(('a', 'b')):\n        return 'y'\n    return x\n",
     "len of a string": "def f(d, x, o):\n    if len(x) == 1:\n        return 'y'\n    return x\n",
     "shadowed builtin": "def f(d, x, o):\n    len = 'a'\n    if len(x.split()) == 1:\n        return 'y'\n    return x\n",
-    "loop with continue": "def f(d, x, o):\n    n = 0\n    for w in x.split():\n        if w == 'a':\n            continue\n        n += 1\n    if n == 1:\n        return 'y'\n    return x\n",
+    "loop with continue": "def f(d, x, o):\n    n = 0\n    for w in x.split():\n        n += 1\n        if w == 'a':\n            continue\n        n += 1\n    if n == 1:\n        return 'y'\n    return x\n",
     "loop with break and no else": "def f(d, x, o):\n    n = 0\n    for w in x.split():\n        n += 1\n        if w == 'a':\n            break\n    if n == 1:\n        return 'y'\n    return x\n",
     "flag loop whose else sets True": "def f(d, x, o):\n    for w in x.split():\n        b = w == 'a'\n        if b:\n            break\n    else:\n        b = True\n    if b:\n        return 'y'\n    return x\n",
     "flag loop whose flag is set before": "def f(d, x, o):\n    b = True\n    for w in x.split():\n        b = w == 'a'\n        if b:\n            break\n    else:\n        b = False\n    if b:\n        return 'y'\n    return x\n",
@@ -523,6 +523,8 @@ def main():
     import pygen_pxindex_selftest                       # constructs added for harness/pygen_pxindex.py (C16, C17)
     bad4, nref4, nin4 = pygen_pxindex_selftest.run("--no-lean" not in sys.argv)
     bad += bad4
+    import pygen_selftest_pxready              # leading `continue` guards, lambdas in declared calls, `l[0]`
+    bad += pygen_selftest_pxready.run("--no-lean" not in sys.argv)
     for what, src in REFUSED.items():
         try:
             tree = ast.parse(src)
